@@ -56,6 +56,22 @@ def append_only(rng, maxlen):
     return toks
 
 
+def facts(res, harness):
+    """regenerated from the source (go/ast): constructors of Typ-caching structs settle the type themselves"""
+    from . import regen
+    r = regen.gen_facts(harness)
+    rows = r["facts"].get("lazyctors") or []
+    for row in rows:
+        res.violation("ir.%s (%s) returns a %s whose cached Typ is neither set nor computed: the first observer (Type/String/print) decides what gets cached" %
+                      (row["ctor"], row["file"], row["type"]), {"ops": [], "fact": row, "replay_hint": "cd /verif/harness && ./bin/harness facts | jq .lazyctors"})
+    r_ow = r["facts"].get("observerwrites") or []
+    ow = [x for x in r_ow if not ((x["method"] == "Succs" and x["field"] == "Successors") or x["type"] == "fmtWriter")]
+    for row in ow:
+        res.violation("(%s).%s in package %s stores into its receiver's field %s (line %d): an observer that caches makes the printed text depend on which queries were made before" %
+                      (row["type"], row["method"], row["pkg"], row["field"], row["line"]), {"ops": [], "fact": row, "replay_hint": "cd /verif/harness && ./bin/harness facts | jq .observerwrites"})
+    return {"lazy_constructors": rows, "observer_methods_storing_into_receiver": len(r_ow), "observer_stores_not_allowed": ow, "facts_regenerated_changed": r["facts_regenerated_changed"]}
+
+
 FIELD_KINDS = ["func-addrspace", "func-sig", "global-addrspace", "global-contenttype", "alloca-addrspace", "alias-aliasee", "param-type", "invoke-invokee", "call-callee", "callbr-callee",
                "add-operands", "icmp-operands", "select-operands", "phi-incoming", "extractvalue-x", "gep-src", "cast-from"]
 
@@ -64,6 +80,13 @@ def gen(tier, rng, harness=None):
     # cached-type state (not part of the slot model): fields feeding a lazily computed type are edited after construction, with and without
     # interleaved pure observers (Type / String / Ident): the printed module must not depend on the observers
     lines = ["!hist.fobs %s" % k for k in FIELD_KINDS]
+    # every sequence of up to 3 (quick) / 4 (thorough) edits out of three values per field (e.g. address space 5, 0, 3): a value that an observer
+    # cached must be overwritten by the next edit, including the edit back to the zero value
+    for k in FIELD_KINDS:
+        for ln in range(1, 4 if tier == "quick" else 5):
+            for seq in itertools.product(range(3), repeat=ln):
+                if all(seq[i] != seq[i + 1] for i in range(ln - 1)):
+                    lines.append("!hist.fobs %s %s" % (k, ",".join(map(str, seq))))
     n = 1500 if tier == "quick" else 60000
     ml = 30 if tier == "quick" else 120
     for _ in range(n):
